@@ -289,3 +289,20 @@ func validVEXArchive(transit []byte) bool {
 		}
 	}
 }
+
+// validVEXCSV: changes.csv / deletions.csv is a well-formed CSV of
+// (path, RFC 3339 time) records to its last byte.
+func validVEXCSV(b []byte) bool {
+	rd := csv.NewReader(bytes.NewReader(b))
+	rd.FieldsPerRecord = 2
+	recs, err := rd.ReadAll()
+	if err != nil {
+		return false
+	}
+	for _, r := range recs {
+		if _, err := time.Parse(time.RFC3339, r[1]); err != nil {
+			return false
+		}
+	}
+	return true
+}
